@@ -584,10 +584,12 @@ func c28exec(op string) (r Result) {
 		}
 		if bad := c28state(); r.Out != want || bad != "" {
 			r.Viol, r.Key = fmt.Sprintf("Delete returned %s, association list says %s; %s", r.Out, want, bad), "map-delete"
-			// diagnosis: which relation did Delete use?
+			// diagnosis: did Delete remove an entry that only types.Identical (not typeutil.Identical) relates to k?
+			held := map[types.Type]bool{}
+			c28map.Iterate(func(kk types.Type, _ interface{}) { held[kk] = true })
 			for _, e := range before {
-				if types.Identical(k, e.key) != typeutil.Identical(k, e.key) {
-					r.Viol += "; the map holds a key on which types.Identical and typeutil.Identical disagree"
+				if !held[e.key] && types.Identical(k, e.key) && !typeutil.Identical(k, e.key) {
+					r.Viol += "; Delete removed an entry whose key is types.Identical but not typeutil.Identical to the argument"
 					r.Key = "map-delete-types-identical"
 					break
 				}
